@@ -304,7 +304,11 @@ def cases(tier, seed):
         fseed = rng.randrange(1000)
         nv = NVARIANTS[fam]
         kind = rng.choice(FAMILY_KINDS[fam])
-        base = {"kind": kind, "var": rng.randrange(nv), "prog": rng.choice(_progs(kind, fam, rng)), "s": rng.choice(I.NUMERIC_SCALARS),
+        similar = fam in I.PANDAS_SIMILAR
+        # the first variants of a pandas family are its closest ones (same codes over permuted categories, same values under
+        # the nullable dtype ...): half of the members are drawn from them
+        base = {"kind": kind, "var": rng.randrange(3) if similar and rng.random() < 0.5 else rng.randrange(nv),
+                "prog": rng.choice(_progs(kind, fam, rng)), "s": rng.choice(I.NUMERIC_SCALARS),
                 "chunks": rng.randrange(4), "name": "default", "kwpos": "kw"}
         members = [base]
         for _j in range(rng.choice((1, 1, 2, 2, 3))):
@@ -312,8 +316,10 @@ def cases(tier, seed):
             what = rng.choice(("variant", "variant", "variant", "variant", "scalar", "scalar", "chunks", "name", "kind", "same", "kwpos", "prog"))
             if fam in KNOWN_FAMILIES and rng.random() < 0.7:
                 what = "variant"
+            if similar and rng.random() < 0.6:
+                what = "variant"
             if what == "variant":
-                m["var"] = rng.randrange(nv)
+                m["var"] = rng.randrange(4) if similar and rng.random() < 0.5 else rng.randrange(nv)
             elif what == "scalar":
                 m["s"] = rng.randrange(len(I.SCALARS))
             elif what == "chunks":
